@@ -39,6 +39,8 @@ class Func:
     def __init__(self, mod, qual, node, cls=None):
         self.mod, self.qual, self.node, self.cls = mod, qual, node, cls
         self.name = node.name
+        self.opaque = []       # decorators the normal form could not read (norm.compose_decorators)
+        self.memo = []         # memoising decorators
 
     @property
     def params(self):
@@ -164,6 +166,7 @@ class Index:
         # into a private function does not change what the structural rules see; the originals are kept as .orig
         if inline:
             from . import norm
+            norm.compose_decorators(self)
             originals = {q: f.node for q, f in self.funcs.items()}
             for q, f in self.funcs.items():
                 f.orig = originals[q]
